@@ -69,6 +69,10 @@ func (s *scLife) Configure(w *World) {
 	case "C04":
 		c.W.AckStale, c.W.AckSkip, c.W.API, c.W.Scrape = 3, 5, 1, 1
 		c.Faults = false
+		if !strings.HasPrefix(c.ConsumerMode, "deferred") && t.Draw(2, nil) == 0 {
+			c.YieldSites = map[string]bool{"consumer.trackoffset": true} // a save may land inside an acknowledgement
+			c.W.Commit = 3
+		}
 	case "C05":
 		if c.Faults {
 			c.W.ReplyErr, c.W.Stall = 2, 1
